@@ -203,8 +203,8 @@ def run(ctx):
         raise core.MachineryError(f"too few near-sync embedded-signalling cases enumerated ({len(near)})")
     ctx.note("near_sync_emb_cases", len(near))
     ctx.note("near_sync_min_distance", min(v["dist"] for v in near))
-    per = 70 if ctx.quick else 700
-    nv = 1200 if ctx.quick else 20000
+    per = 70 if ctx.quick else 2500
+    nv = 1200 if ctx.quick else 60000
     with Pool(core.NCPU) as pool:
         nw = 8
         parts = pool.map(data_work, [(ctx.seed * 7 + i, KINDS[i % len(KINDS):] + KINDS[:i % len(KINDS)], (per + nw - 1) // nw + 2) for i in range(nw)])
